@@ -13,7 +13,7 @@ import (
 func init() {
 	register(&propDef{
 		id: "C11", level: "other", run: runC11,
-		explanation: "Decided per path (which covers every cut/fault offset): (R1) every call in the reachable decoder functions whose result includes an error is followed, on every path on which that error is non-nil, by a return whose error operand is that error, a wrapper of it, or statically non-nil; the only frozen exceptions are hash Write (never fails) and fill's `n > 0 => err = nil` (data was delivered; the io.Reader contract re-delivers the error). (R2) a return that may carry nil while a callee error is non-nil (a swallow site) is allowed only in DecodeChained, only under errors.Is(err, <EOF class>) and only after at least one file. (R3) the EOF-class sentinel that ends a chain is produced only by the first-byte EOF branch of decodeHeader. (R4) messages are added only after they parsed completely (C03-6). (R5) Decode returns the File on every path; DecodeChained appends the partial File before returning an error. NOT decided: the per-offset enumeration as an observation, or that the partial File contains exactly the complete messages (follows from R4). C03-7-container-writers runs here too: messages reach File.FileId and the containers only complete, through the routers, so the partial File beside an error holds no half-decoded message. An error still pending when the loop re-executes the call that produced it counts as dropped.",
+		explanation: "Decided per path (which covers every cut/fault offset): (R1) every call in the reachable decoder functions whose result includes an error is followed, on every path on which that error is non-nil, by a return whose error operand is that error, a wrapper of it, or statically non-nil; the only frozen exceptions are hash Write (never fails) and fill's `n > 0 => err = nil` (data was delivered; the io.Reader contract re-delivers the error). (R2) a return that may carry nil while a callee error is non-nil (a swallow site) is allowed only in DecodeChained, only under errors.Is(err, <EOF class>) and only after at least one file. (R3) the EOF-class sentinel that ends a chain is produced only by the first-byte EOF branch of decodeHeader. (R4) messages are added only after they parsed completely (C03-6). (R5) Decode returns the File on every path; DecodeChained appends the partial File before returning an error. NOT decided: the per-offset enumeration as an observation, or that the partial File contains exactly the complete messages (follows from R4). C03-7-container-writers runs here too: messages reach File.FileId and the containers only complete, through the routers, so the partial File beside an error holds no half-decoded message. An error still pending when the loop re-executes the call that produced it counts as dropped. The read discipline of C04 and the capped read of C10 run here too: input is obtained only at the enumerated read sites, each reading what the framing says is still due.",
 		trusted:     []string{"go/ssa CFG and dominator tree", "hash.Hash.Write never returns an error (documented)", "fmt.Errorf/errors.New never return nil", "standard-library sentinel errors are non-nil"},
 	})
 }
@@ -126,6 +126,13 @@ func runC11(c *Ctx, r *Report) {
 	c11Results(c, r)
 	c11FreshDecoder(c, r)
 	readerKindIndependent(c, r, "C11-R5-results")
+	// premise of "every cut or fault is an error": input is obtained only at the enumerated read sites,
+	// each reading what the framing says is still due (a read that fetches bytes of the next section
+	// early moves the place where a short read would have been noticed)
+	c04ReadDiscipline(c, r)
+	if fn := c.ssaFn(c.fn(c.fit, "decoder.fill")); fn != nil {
+		c10FillCap(c, r, fn)
+	}
 	// R4
 	c03DecoderAdds(c, r)
 	c03ContainerWriters(c, r) // a message reaches its container complete, through the router, or not at all
